@@ -218,6 +218,10 @@ def enumerate_obligations(asm):
             obs.append(dict(id=f'{fn.label}/post:{lab}', key=key, fn=fn.label, kind='post', label=lab, expr=e))
         obs.append(dict(id=f'{fn.label}/safety', key=key, fn=fn.label, kind='safety', label='safety',
                         expr='no overflow/underflow, every callee precondition (incl. std panic conditions carried by shims), termination'))
+        if fn.decreases:
+            # a recursive function under contract: its termination measure is an obligation of its own
+            obs.append(dict(id=f'{fn.label}/termination', key=key, fn=fn.label, kind='termination', label='termination',
+                            expr=f'the recursion terminates: `{fn.decreases}` decreases at every recursive call'))
         for ordn, spec in fn.loops.items():
             for (lab, e) in spec.get('invariant', []):
                 obs.append(dict(id=f'{fn.label}/loopinv:{lab}', key=key, fn=fn.label, kind='loopinv', label=lab, expr=e))
@@ -230,6 +234,14 @@ def verify_unit(unit, scratch, tier='quick', seed=0, repo=None, vacuity=True):
     os.makedirs(scratch, exist_ok=True)
     t0 = time.time()
     try:
+        # a unit whose shape depends on the tree it is pointed at (c12_idmap, c03_entity) is built per run; `precheck`
+        # compares what the environment mirrors (e.g. the variants of an enum) with the source: a difference is a lost anchor
+        if unit.get('build'):
+            unit = dict(unit)
+            unit['template'], unit['fns'] = unit['build'](repo or unit_mod.REPO)
+            res.unit = unit
+        if unit.get('precheck'):
+            unit['precheck'](repo or unit_mod.REPO)
         asm = unit_mod.assemble(unit['template'], unit['fns'], repo=repo or unit_mod.REPO)
     except rustscan.ScanError as e:
         res.status = 'undecided'
@@ -336,8 +348,14 @@ def verify_unit(unit, scratch, tier='quick', seed=0, repo=None, vacuity=True):
             if hit:
                 o['status'] = 'failed'
                 o['detail'] = hit[0]['detail']
+        elif o['kind'] == 'termination':
+            hit = [f for f in fl if f['id'].endswith('/termination')]
+            if hit:
+                o['status'] = 'failed'
+                o['detail'] = hit[0]['detail']
         elif o['kind'] == 'safety':
-            hit = [f for f in fl if '/post:' not in f['id'] and '/loopinv' not in f['id']]
+            own_term = bool(asm.fns[o['key']]['fn'].decreases)
+            hit = [f for f in fl if '/post:' not in f['id'] and '/loopinv' not in f['id'] and not (own_term and f['id'].endswith('/termination'))]
             if hit:
                 o['status'] = 'failed'
                 o['sites'] = sorted(set(f['id'] for f in hit))
